@@ -317,6 +317,9 @@ def lower(v, _seen=None):
         return VObj(z3.IntVal(info.cid), vlist(fields), z3.IntVal(oid) if isinstance(oid, int) else oid)
     if REG.is_atom(v):
         return VAtom(z3.IntVal(REG.atom(v)))
+    if isinstance(v, pyast.AST):
+        info = REG.info(type(v))
+        return VObj(z3.IntVal(info.cid), vlist([lower_native(getattr(v, f, _MISSING)) for f in info.fields]), z3.IntVal(0))
     if isinstance(v, type) or callable(v):
         return VAtom(z3.IntVal(REG.atom(v, getattr(v, "__qualname__", repr(v)))))
     # a real (native) object of a registered class: lower through its getter / getattr
